@@ -20,24 +20,28 @@ def check_c20(ctx):
     vlib.build_worker(ctx)
     rep = vlib.Report(ctx)
     if ctx.tier == 'thorough':
-        plan = [('parameter', 3, 1, False), ('header', 2, 1, False), ('items', 2, 1, False), ('schema', 1, 1, False), ('schema', 4, 1, True)]
+        plan = [('parameter', 3, 1, False), ('header', 2, 1, False), ('items', 2, 1, False), ('schema', 1, 1, False), ('schema', 4, 1, True),
+                ('schema+ref', 3, 1, True)]
     else:
-        plan = [('parameter', 2, 2, False), ('header', 1, 1, False), ('items', 1, 1, False), ('schema', 2, 1, True)]
+        plan = [('parameter', 2, 2, False), ('header', 1, 1, False), ('items', 1, 1, False), ('schema', 2, 1, True), ('schema+ref', 2, 1, True)]
     for carrier, maxprog, sample, edge in plan:
-        label = '%s_p%d%s' % (carrier, maxprog, '_edge' if edge else '')
+        # 'schema+ref': the schema carrier also holds a $ref (validation keywords beside a reference are legal and kept)
+        withref = carrier.endswith('+ref')
+        carrier = carrier.replace('+ref', '')
+        label = '%s%s_p%d%s' % (carrier, '_ref' if withref else '', maxprog, '_edge' if edge else '')
         states, progs = ctx.path('vs_%s.ndjson' % label), ctx.path('vp_%s.ndjson' % label)
         # model check of the accessor state machine + export of its initial states and programs
         vlib.model_check(ctx, 'Validations', val_cfg('gen', '', states, progs, maxprog, [carrier], True, edge), label, workers=8, timeout=2400)
         if sample > 1:
             lines = open(states).read().splitlines(keepends=True)
             open(states, 'w').writelines(l for i, l in enumerate(lines) if i % sample == ctx.seed % sample)
-        obsfiles = vlib.run_worker(ctx, 'validations', states, ['-progs', progs], prefix='val_' + label)
+        obsfiles = vlib.run_worker(ctx, 'validations', states, ['-progs', progs] + (['-withref'] if withref else []), prefix='val_' + label)
         pairs = vlib.run_oracle(ctx, 'Validations', obsfiles, cfg_names=('InFile', 'OutFile'),
                                 consts={'Mode': '"judge"', 'ProgFile': '""', 'MaxProg': str(maxprog), 'Carriers': '{}', 'EdgeOnly': 'TRUE'})
         for o, v in pairs:
             rep.evaluations += 1
             if o['err']:
-                rep.fail('c20', {'family': 'validations', 'c': o['c'], 'v0': o['v0'], 'prog': o['prog'], 'err': o['err']}, [],
+                rep.fail('c20', {'family': 'validations', 'c': o['c'], 'v0': o['v0'], 'prog': o['prog'], 'err': o['err'], 'withref': withref}, [],
                          'panic on carrier %s: %s' % (o['c'], o['err']))
                 continue
             rep.count('c20:' + v['c20'])
@@ -46,7 +50,7 @@ def check_c20(ctx):
                 rep.nontrivial.add((o['c'], json.dumps(o['v0'], sort_keys=True), '/'.join(o['prog']), o['steps'][1]['ncb'] if len(o['steps']) > 1 else 0))
             if v['c20'] == 'fail':
                 st = o['steps'][v['at'] - 1]
-                rep.fail('c20', {'family': 'validations', 'c': o['c'], 'v0': o['v0'], 'prog': o['prog'], 'steps': o['steps'], 'at': v['at']}, [],
+                rep.fail('c20', {'family': 'validations', 'c': o['c'], 'v0': o['v0'], 'prog': o['prog'], 'steps': o['steps'], 'at': v['at'], 'withref': withref}, [],
                          'carrier=%s initial=%s program=%s: step %d (%s %s ncb=%s) observed v=%s log=%s has=%s other-changed=%s' % (
                              o['c'], {k: x for k, x in o['v0'].items() if x != 'a'}, o['prog'], v['at'], st['op'], st['fam'], st['ncb'],
                              {k: x for k, x in st['v'].items() if x != 'a'}, st['log'], st['has'], st['other'] != o['other0']))
@@ -73,7 +77,7 @@ def replay_validations(ctx, rec):
     states, progs = ctx.path('rs.ndjson'), ctx.path('rp.ndjson')
     open(states, 'w').write(json.dumps({'c': c['c'], 'v': c['v0']}) + '\n')
     open(progs, 'w').write(''.join(json.dumps({'c': c['c'], 'prog': c['prog'], 'ncb': n}) + '\n' for n in (0, 1, 2)))
-    obsfiles = vlib.run_worker(ctx, 'validations', states, ['-progs', progs], shards=1, prefix='replay')
+    obsfiles = vlib.run_worker(ctx, 'validations', states, ['-progs', progs] + (['-withref'] if c.get('withref') else []), shards=1, prefix='replay')
     pairs = vlib.run_oracle(ctx, 'Validations', obsfiles, cfg_names=('InFile', 'OutFile'),
                             consts={'Mode': '"judge"', 'ProgFile': '""', 'MaxProg': '3', 'Carriers': '{}', 'EdgeOnly': 'TRUE'})
     bad = 0
